@@ -54,7 +54,8 @@ def build(pid, log):
         mods = ['FCA.Props.' + pid]
         gen = os.path.join(LEAN, 'FCA', 'Props', pid + 'Gen.lean')
         have_gen = os.path.exists(gen)
-        gen_source = {'C08': 'Predicates', 'C16': 'Junctors', 'C12': 'Formats', 'C01': 'Loops'}.get(pid)
+        gen_source = {'C08': 'Predicates', 'C16': 'Junctors', 'C12': 'Formats', 'C01': 'Loops',
+                      'C03': 'Lindig', 'C05': 'Lindig', 'C04': 'Fcbo'}.get(pid)
         declined = bool(gen_source) and str(info['extraction'].get(gen_source, '')).startswith('declined')
         if declined:
             info['notes'].append('extraction declined (%s): the theorems over the regenerated kernels are not checked against the '
